@@ -205,6 +205,15 @@ impl RttTracker {
 }
 '''
 
+CONN_FLOAT_STUBS = r'''
+impl SrtlaConnection {
+    pub uninterp spec fn spec_queue_building(&self) -> bool;
+    // RttTracker::queue_building_suspected: float comparisons over the RTT floor windows (outside the subset)
+    #[verifier::external_body]
+    pub fn queue_building_suspected(&self) -> (r: bool) ensures r == self.spec_queue_building() { unimplemented!() }
+}
+'''
+
 QUALITY_STUB = r'''
 // calculate_quality_multiplier: exp() and float arithmetic; its range [0.35, 1.1*1.03] is proved by Kani
 // on the real function (kx: quality_multiplier_range).  Here: a deterministic function of (link state, time).
